@@ -2,7 +2,7 @@ SPECIFICATION Spec
 CONSTANTS
   ClassLevelPropagate = FALSE
   ParamResolve = FALSE
-  InitRestated = FALSE
+  InitRestated = TRUE
   OriginFromSuper = FALSE
   AllowModifyBusy = FALSE
   Parent <- Chain3
